@@ -1314,6 +1314,19 @@ func ruleKindTable(p *Program, r *Reporter) {
 	// time.Time → Unix seconds, in both functions
 	for _, fn := range []*ssa.Function{conv, sliceConv} {
 		unix := false
+		// (in the function or in a function of the package it hands the value to)
+		for _, g := range append([]*ssa.Function{fn}, staticCalleesWithin(p, fn, 1)...) {
+			if g != fn && (fnPkg(g) == nil || fnPkg(g).Pkg.Path() != Mod+"/vm" || g == conv || g == sliceConv) {
+				continue
+			}
+			for _, b := range g.Blocks {
+				for _, ins := range b.Instrs {
+					if c, ok := ins.(*ssa.Call); ok && c.Call.StaticCallee() != nil && c.Call.StaticCallee().String() == "(time.Time).Unix" {
+						unix = true
+					}
+				}
+			}
+		}
 		for _, b := range fn.Blocks {
 			for _, ins := range b.Instrs {
 				if c, ok := ins.(*ssa.Call); ok && c.Call.StaticCallee() != nil && c.Call.StaticCallee().String() == "(time.Time).Unix" {
@@ -1386,6 +1399,50 @@ func ruleKindTable(p *Program, r *Reporter) {
 		}
 		return true
 	})
+	// the conversion of one member may have a function of its own: the loop
+	// appends what that function returns for the member
+	memberFn := sliceConv
+	hasTyped := func(list []ast.Stmt) bool {
+		for _, st := range list {
+			switch x := st.(type) {
+			case *ast.TypeSwitchStmt:
+				return true
+			case *ast.AssignStmt:
+				if len(x.Rhs) == 1 {
+					if _, ok := x.Rhs[0].(*ast.TypeAssertExpr); ok {
+						return true
+					}
+				}
+			}
+		}
+		return false
+	}
+	if !hasTyped(stmts) {
+		for _, st := range stmts {
+			ast.Inspect(st, func(n ast.Node) bool {
+				ce, ok := n.(*ast.CallExpr)
+				if !ok || memberFn != sliceConv {
+					return true
+				}
+				f, ok := calleeObj(infoS, ce).(*types.Func)
+				if !ok || f.Pkg() == nil || f.Pkg().Path() != Mod+"/vm" {
+					return true
+				}
+				sig := f.Type().(*types.Signature)
+				if sig.Results().Len() != 1 || !isObjectIface(sig.Results().At(0).Type()) {
+					return true
+				}
+				if g := p.SSA.FuncValue(f); g != nil && p.FuncDecl(g) != nil && g != conv && hasTyped(p.FuncDecl(g).Body.List) {
+					memberFn = g
+				}
+				return true
+			})
+		}
+		if memberFn != sliceConv {
+			stmts = p.FuncDecl(memberFn).Body.List
+			infoS = p.Info(memberFn)
+		}
+	}
 	// the typed conversions of a member, in either spelling: a chain of
 	// `x, ok := in.(T); if ok {…}` or a type switch with one case per type
 	type elemCase struct {
@@ -1468,10 +1525,12 @@ func ruleKindTable(p *Program, r *Reporter) {
 	// a type without a case of its own goes the way of every other member:
 	// through the kind switch, which has the case (checked above)
 	fallback := false
-	for _, b := range sliceConv.Blocks {
-		for _, ins := range b.Instrs {
-			if c, ok := ins.(*ssa.Call); ok && c.Call.StaticCallee() == conv {
-				fallback = true
+	for _, g := range []*ssa.Function{sliceConv, memberFn} {
+		for _, b := range g.Blocks {
+			for _, ins := range b.Instrs {
+				if c, ok := ins.(*ssa.Call); ok && c.Call.StaticCallee() == conv {
+					fallback = true
+				}
 			}
 		}
 	}
